@@ -242,8 +242,8 @@ def readiness_semantics(check: Check) -> None:
     helpers = {k: v for k, v in fn.cls.methods.items() if k.startswith("_") and not k.startswith("__")}
     rule_ns = MObj("class", {"AND": "and", "OR": "or", "IS": "is", "IF": "if", "THEN": "then", "WITH": "with"})
     try:
-        for has_and, has_or, c1, c2, conj, disj, impl, agg, dfz in itertools.product((True, False), (True, False), concl_sets, concl_sets[:2], (True, False), (True, False),
-                                                                                     (True, False), (True, False), (True, False)):
+        for has_and, has_or, c1, c2, conj, disj, impl, agg, dfz, off in itertools.product((True, False), (True, False), concl_sets, concl_sets[:2], (True, False), (True, False),
+                                                                                          (True, False), (True, False), (True, False), (False, True)):
             cases += 1
             term = MObj("Term", {"name": "t"})
             integral = MObj("Centroid", {"__bases__": ("IntegralDefuzzifier", "Defuzzifier")})
@@ -255,12 +255,14 @@ def readiness_semantics(check: Check) -> None:
             iv = MObj("InputVariable", {"name": "in", "terms": [term], "__len__": 1, "enabled": True, "__bases__": ("Variable",)})
             by = {"m": ov_m, "t": ov_t}
 
-            def mk_rule(a: bool, o: bool, concl: tuple) -> MObj:
+            def mk_rule(a: bool, o: bool, concl: tuple, enabled: bool = True) -> MObj:
                 return MObj("Rule", {"antecedent": MObj("Antecedent", {"text": MObj("Text", {"has_and": a, "has_or": o, "__bool__": True})}),
                                      "consequent": MObj("Consequent", {"conclusions": [MObj("Proposition", {"variable": by[k], "hedges": [], "term": term}) for k in concl]}),
-                                     "enabled": True, "weight": 1.0})
+                                     "enabled": enabled, "weight": 1.0})
 
-            rules = [mk_rule(has_and, has_or, c1), mk_rule(False, False, c2)]
+            # a disabled rule is still loaded: every activation method computes its degree (and needs the connectives' operators); only its
+            # conclusions are never applied, so it does not need the implication
+            rules = [mk_rule(has_and, has_or, c1, not off), mk_rule(False, False, c2)]
             rb = MObj("RuleBlock", {"name": "block", "rules": rules, "__len__": 2, "enabled": True, "conjunction": MObj("Minimum", {}) if conj else None,
                                     "disjunction": MObj("Maximum", {}) if disj else None, "implication": MObj("Minimum", {}) if impl else None,
                                     "activation": MObj("General", {})})
@@ -279,14 +281,14 @@ def readiness_semantics(check: Check) -> None:
                 bad.setdefault("raises", f"is_ready raises {err.cls}")
                 continue
             need = {"conjunction": has_and and not conj, "disjunction": has_or and not disj,
-                    "implication": ("m" in c1 or "m" in c2) and not impl, "aggregation": not agg, "defuzzifier": not dfz}
-            what = (f"first rule with{'' if has_and else 'out'} `and`, with{'' if has_or else 'out'} `or`, conclusions {list(c1)} / {list(c2)}; present: conjunction={conj}, "
+                    "implication": (("m" in c1 and not off) or "m" in c2) and not impl, "aggregation": not agg, "defuzzifier": not dfz}
+            what = (f"first rule{' (disabled)' if off else ''} with{'' if has_and else 'out'} `and`, with{'' if has_or else 'out'} `or`, conclusions {list(c1)} / {list(c2)}; present: conjunction={conj}, "
                     f"disjunction={disj}, implication={impl}, aggregation={agg}, defuzzifier={dfz}")
             if ret is not (not errors):
                 bad.setdefault("result", f"{what}: is_ready returns {ret} with {len(errors)} error(s) reported")
             if not any(need.values()) and errors:
                 spurious.setdefault("spurious", f"{what}: nothing that is needed is missing, but {len(errors)} error(s) are reported")
-            results[(has_and, has_or, c1, c2, conj, disj, impl, agg, dfz)] = (sorted(repr(freeze(x)) for x in errors), need, what)
+            results[(has_and, has_or, c1, c2, conj, disj, impl, agg, dfz, off)] = (sorted(repr(freeze(x)) for x in errors), need, what)
         # every missing operator is reported: the errors with the operator missing differ from those of the same engine with the operator present
         position = {"conjunction": 4, "disjunction": 5, "implication": 6, "aggregation": 7, "defuzzifier": 8}
         for cfg, (errs, need, what) in results.items():
